@@ -103,9 +103,10 @@ func coqClass(rs []byteRange) string {
 }
 
 type flatItem struct {
-	kind string // lit | one | star | open | close | bol | eol
+	kind string // lit | one | rune | star | open | close | bol | eol
 	lit  []byte
 	cls  string
+	high bool // the class holds the non-ASCII runes (all of them: classBytes)
 	g    int
 }
 
@@ -113,25 +114,32 @@ type unsupportedErr string
 
 func (u unsupportedErr) Error() string { return string(u) }
 
-func singleClass(re *syntax.Regexp) (string, error) {
+// singleClass: the Coq byte class, and whether it holds the non-ASCII runes
+func singleClass(re *syntax.Regexp) (string, bool, error) {
 	switch re.Op {
 	case syntax.OpAnyCharNotNL:
-		return "cls_dot", nil
+		return "cls_dot", true, nil
 	case syntax.OpAnyChar:
-		return "(mkcls [(0, 255)])", nil
+		return "(mkcls [(0, 255)])", true, nil
 	case syntax.OpCharClass:
 		rs, ok := classBytes(re.Rune)
 		if !ok {
-			return "", unsupportedErr("character class with some but not all non-ASCII runes: " + re.String())
+			return "", false, unsupportedErr("character class with some but not all non-ASCII runes: " + re.String())
 		}
-		return coqClass(rs), nil
+		high := false
+		for _, r := range rs {
+			if r.hi >= 128 {
+				high = true
+			}
+		}
+		return coqClass(rs), high, nil
 	case syntax.OpLiteral:
 		if len(re.Rune) == 1 && re.Rune[0] < 0x80 && re.Flags&syntax.FoldCase == 0 {
 			c := int(re.Rune[0])
-			return coqClass([]byteRange{{c, c}}), nil
+			return coqClass([]byteRange{{c, c}}), false, nil
 		}
 	}
-	return "", unsupportedErr("repetition over something that is not a single-character class: " + re.String())
+	return "", false, unsupportedErr("repetition over something that is not a single-character class: " + re.String())
 }
 
 func flatten(re *syntax.Regexp, out *[]flatItem) error {
@@ -156,24 +164,24 @@ func flatten(re *syntax.Regexp, out *[]flatItem) error {
 		*out = append(*out, flatItem{kind: "lit", lit: b})
 		return nil
 	case syntax.OpAnyCharNotNL, syntax.OpAnyChar, syntax.OpCharClass:
-		c, err := singleClass(re)
+		c, high, err := singleClass(re)
 		if err != nil {
 			return err
 		}
-		*out = append(*out, flatItem{kind: "one", cls: c})
+		*out = append(*out, flatItem{kind: "one", cls: c, high: high})
 		return nil
 	case syntax.OpStar, syntax.OpPlus:
 		if re.Flags&syntax.NonGreedy != 0 {
 			return unsupportedErr("non-greedy repetition: " + re.String())
 		}
-		c, err := singleClass(re.Sub[0])
+		c, high, err := singleClass(re.Sub[0])
 		if err != nil {
 			return err
 		}
 		if re.Op == syntax.OpPlus {
-			*out = append(*out, flatItem{kind: "one", cls: c})
+			*out = append(*out, flatItem{kind: "one", cls: c, high: high})
 		}
-		*out = append(*out, flatItem{kind: "star", cls: c})
+		*out = append(*out, flatItem{kind: "star", cls: c, high: high})
 		return nil
 	case syntax.OpCapture:
 		*out = append(*out, flatItem{kind: "open", g: re.Cap})
@@ -190,6 +198,73 @@ func flatten(re *syntax.Regexp, out *[]flatItem) error {
 		return nil
 	}
 	return unsupportedErr("construct outside the flat subset (" + re.Op.String() + "): " + re.String())
+}
+
+// runeItems decides, item by item, between bytes and runes.  Go's regexp consumes RUNES; the byte items of
+// Lib/Regex.v consume bytes.  A single-character item over a class that holds the non-ASCII runes consumes a
+// whole UTF-8 sequence in Go: it stays the byte item IOne only as the head of x+ (the IStar behind it, over a
+// class with the non-ASCII runes too, takes the rest of the sequence); anywhere else it becomes IRune (one
+// decoding step).
+func runeItems(items []flatItem) []flatItem {
+	out := append([]flatItem{}, items...)
+	for i := range out {
+		if out[i].kind == "one" && out[i].high && !(i+1 < len(out) && out[i+1].kind == "star" && out[i+1].high) {
+			out[i].kind = "rune"
+		}
+	}
+	return out
+}
+
+// runeSafe is the Go twin of Model/RegexSpec.v rune_safe (re-checked in Coq of the generated list all_regexes:
+// Props/C06.v C06_regex_all_patterns_rune_safe).  A pattern that is not rune-safe is refused: byte-level matching
+// could stop inside a UTF-8 sequence where Go's rune-level matching cannot.
+//   - a greedy star over a class with the non-ASCII runes is followed (behind group marks) by an ASCII literal, one
+//     byte of an ASCII-only class, $ or the end of the pattern: it can only stop at a rune boundary;
+//   - a match starts at a rune boundary: the pattern is anchored or starts with an ASCII literal / ASCII-only class.
+func runeSafe(items []flatItem) string {
+	followOK := func(r []flatItem) bool {
+		for _, it := range r {
+			switch it.kind {
+			case "open", "close":
+				continue
+			case "lit":
+				return len(it.lit) > 0 && it.lit[0] < 0x80
+			case "one":
+				return !it.high
+			case "eol":
+				return true
+			default:
+				return false
+			}
+		}
+		return true
+	}
+	for i, it := range items {
+		if it.kind == "one" && it.high && !(i+1 < len(items) && items[i+1].kind == "star" && items[i+1].high) {
+			return "a single byte of a class with non-ASCII runes that is not the head of x+"
+		}
+		if it.kind == "star" && it.high && !followOK(items[i+1:]) {
+			return "a greedy repetition over a class with non-ASCII runes is followed by something that can start inside a UTF-8 sequence"
+		}
+	}
+	for _, it := range items {
+		switch it.kind {
+		case "bol":
+			return ""
+		case "open":
+			continue
+		case "lit":
+			if len(it.lit) > 0 && it.lit[0] < 0x80 {
+				return ""
+			}
+		case "one":
+			if !it.high {
+				return ""
+			}
+		}
+		break
+	}
+	return "an unanchored pattern must start with an ASCII literal or an ASCII-only class (a match must start at a rune boundary)"
 }
 
 func coqStringLit(b []byte) (string, bool) {
@@ -234,6 +309,8 @@ func coqItems(items []flatItem) string {
 			}
 		case "one":
 			s = fmt.Sprintf("IOne %s :: %s", it.cls, paren(s))
+		case "rune":
+			s = fmt.Sprintf("IRune %s :: %s", it.cls, paren(s))
 		case "star":
 			s = fmt.Sprintf("IStar %s :: %s", it.cls, paren(s))
 		case "open":
@@ -320,8 +397,10 @@ func readRegexes(repo string) ([]regexDef, error) {
 				var items []flatItem
 				if err := flatten(re, &items); err != nil {
 					def.err = err
+				} else if why := runeSafe(runeItems(items)); why != "" {
+					def.err = unsupportedErr("not rune-safe (" + why + "): byte-level matching would differ from Go's rune-level matching")
 				} else {
-					def.coq = coqItems(items)
+					def.coq = coqItems(runeItems(items))
 				}
 				defs = append(defs, def)
 			}
@@ -358,6 +437,12 @@ func genRegexes(repo, out string) error {
 		names = append(names, d.name)
 	}
 	fmt.Fprintf(&sb, "Definition all_regex_names : list string := [%s].\n", quoteJoin(names))
+	// the patterns themselves, for facts stated of all of them (rune-safety: Props/C06.v)
+	var pairs []string
+	for _, d := range defs {
+		pairs = append(pairs, fmt.Sprintf("(\"%s\", %s)", d.name, d.name))
+	}
+	fmt.Fprintf(&sb, "Definition all_regexes : list (string * list item) := [%s].\n", strings.Join(pairs, "; "))
 	return os.WriteFile(filepath.Join(out, "SshdRegexes.v"), []byte(sb.String()), 0o644)
 }
 
